@@ -1,6 +1,7 @@
 /-
-C19 — if no message object is handed to the bot twice and the filters only return the object they
-got or a newly built one, no message is ever lost to the echo-emulation assertion (helper lemmas).
+C19 — since the emulated echo is a tagged *copy*, the only objects carrying the tag are made inside
+the bot; messages handed over by callers (any number of times) and messages built or passed on by
+well-behaved filters never carry it, so nothing is lost to the assertion (helper lemmas).
 -/
 import LimnoriaModel.C19.Live
 namespace C19
@@ -14,13 +15,13 @@ def oids (l : List Msg) : List Oid := l.map (·.oid)
 /-- `.int k` with `k ≥ n` does not occur -/
 def IntBelow (n : Nat) (l : List Oid) : Prop := ∀ k, Oid.int k ∈ l → k < n
 
-/-- waiting objects are pairwise distinct, none of them carries the echo tag, and the identities
+/-- no waiting object carries the echo tag; the tagged objects are internal ones; the identities
 made inside the bot so far are below `nextOid` -/
-structure FreshInv (s : Irc) : Prop where
-  nodup : (oids s.pending).Nodup
+structure TagInv (s : Irc) : Prop where
   untagged : ∀ o ∈ oids s.pending, o ∉ s.echoed
   intPending : IntBelow s.nextOid (oids s.pending)
   intEchoed : IntBelow s.nextOid s.echoed
+  echoedInt : ∀ o ∈ s.echoed, ∃ k, o = Oid.int k
   filters : ∀ f ∈ s.cfg.filters, FilterOk f
 
 theorem runFilters_oid : ∀ (fs : List Filter) (n : Nat) (m out : Msg) (n' : Nat),
@@ -52,82 +53,73 @@ theorem runFilters_mono : ∀ (fs : List Filter) (n : Nat) (m : Msg), n ≤ (run
     · exact Nat.le_succ _
     · exact Nat.le_trans (Nat.le_succ _) (runFilters_mono fs (n + 1) _)
 
+theorem oids_cons (m : Msg) (l : List Msg) : oids (m :: l) = m.oid :: oids l := rfl
+
+/-- the invariant only looks at which objects wait, the tags, the counter and the filters -/
+theorem TagInv.of_sub {s s' : Irc} (h : TagInv s) (hp : ∀ o ∈ oids s'.pending, o ∈ oids s.pending)
+    (he : s'.echoed = s.echoed) (hn : s.nextOid ≤ s'.nextOid) (hf : s'.cfg = s.cfg) : TagInv s' := by
+  refine ⟨?_, ?_, ?_, by rw [he]; exact h.echoedInt, by rw [hf]; exact h.filters⟩
+  · intro o ho; rw [he]; exact h.untagged o (hp o ho)
+  · intro k hk; exact Nat.lt_of_lt_of_le (h.intPending k (hp _ hk)) hn
+  · intro k hk; rw [he] at hk; exact Nat.lt_of_lt_of_le (h.intEchoed k hk) hn
+
 /-- the state just after `m` was taken out of a queue -/
-structure PreInv (s : Irc) (m : Msg) (used : List Nat) : Prop where
-  nodup : (oids (m :: s.pending)).Nodup
+structure PreInv (s : Irc) (m : Msg) : Prop where
   untagged : ∀ o ∈ oids (m :: s.pending), o ∉ s.echoed
   intPending : IntBelow s.nextOid (oids (m :: s.pending))
   intEchoed : IntBelow s.nextOid s.echoed
+  echoedInt : ∀ o ∈ s.echoed, ∃ k, o = Oid.int k
   filters : ∀ f ∈ s.cfg.filters, FilterOk f
-  extUsed : ∀ k, (Oid.ext k ∈ oids (m :: s.pending) ∨ Oid.ext k ∈ s.echoed) → k ∈ used
 
-structure FreshInv' (s : Irc) (used : List Nat) : Prop extends FreshInv s where
-  extUsed : ∀ k, (Oid.ext k ∈ oids s.pending ∨ Oid.ext k ∈ s.echoed) → k ∈ used
+theorem PreInv.of_sub {s s0 : Irc} {m : Msg} (h : TagInv s0)
+    (hp : ∀ o ∈ oids (m :: s.pending), o ∈ oids s0.pending) (he : s.echoed = s0.echoed)
+    (hn : s.nextOid = s0.nextOid) (hf : s.cfg = s0.cfg) : PreInv s m := by
+  refine ⟨?_, ?_, ?_, by rw [he]; exact h.echoedInt, by rw [hf]; exact h.filters⟩
+  · intro o ho; rw [he]; exact h.untagged o (hp o ho)
+  · intro k hk; rw [hn]; exact h.intPending k (hp _ hk)
+  · intro k hk; rw [he] at hk; rw [hn]; exact h.intEchoed k hk
 
-theorem deliver_fresh {s s1 : Irc} {m : Msg} {d : Delivery} {used : List Nat} (hp : PreInv s m used)
-    (h : deliver s m = (s1, d)) : (∀ o, d ≠ .lost o) ∧ FreshInv' s1 used := by
+theorem deliver_tag {s s1 : Irc} {m : Msg} {d : Delivery} (hp : PreInv s m)
+    (h : deliver s m = (s1, d)) : (∀ o, d ≠ .lost o) ∧ TagInv s1 := by
   have hpend : ∀ x, x ∈ oids s.pending → x ∈ oids (m :: s.pending) := by
-    intro x hx; simp only [oids, map_cons, mem_cons]; exact Or.inr hx
-  have hnd : (oids s.pending).Nodup := by
-    have := hp.nodup; simp only [oids, map_cons, nodup_cons] at this; exact this.2
+    intro x hx; rw [oids_cons]; exact mem_cons_of_mem _ hx
   unfold deliver at h
   split at h
   · rename_i n hr
     injection h with h1 h2; subst h1 h2
     have hmono := runFilters_mono s.cfg.filters s.nextOid m
     rw [hr] at hmono
-    refine ⟨(by intro o h; cases h), ⟨⟨hnd, fun o ho => hp.untagged o (hpend o ho), ?_, ?_, hp.filters⟩, ?_⟩⟩
+    refine ⟨(by intro o h; cases h), ⟨fun o ho => hp.untagged o (hpend o ho), ?_, ?_, hp.echoedInt, hp.filters⟩⟩
     · intro k hk; exact Nat.lt_of_lt_of_le (hp.intPending k (hpend _ hk)) hmono
     · intro k hk; exact Nat.lt_of_lt_of_le (hp.intEchoed k hk) hmono
-    · intro k hk; exact hp.extUsed k (hk.imp (hpend _) id)
   · rename_i out n hr
     obtain ⟨hmono, hoid⟩ := runFilters_oid s.cfg.filters s.nextOid m out n hp.filters hr
-    -- the outgoing object is not tagged
     have hnot : out.oid ∉ s.echoed := by
       rcases hoid with h1 | ⟨k, h1, h2, _⟩
-      · rw [h1]; exact hp.untagged _ (by simp [oids])
+      · rw [h1]; exact hp.untagged _ (by rw [oids_cons]; exact mem_cons_self)
       · rw [h1]; intro hk; have := hp.intEchoed k hk; omega
-    have hother : ∀ o ∈ oids s.pending, o ≠ out.oid := by
-      intro o ho he
-      rcases hoid with h1 | ⟨k, h1, h2, _⟩
-      · have := hp.nodup
-        simp only [oids, map_cons, nodup_cons] at this
-        exact this.1 (by rw [← h1, ← he]; exact ho)
-      · have := hp.intPending k (by rw [← h1, ← he]; exact hpend o ho)
-        omega
-    have hint : ∀ k, out.oid = Oid.int k → k < n := by
-      intro k hk
-      rcases hoid with h1 | ⟨k', h1, _, h3⟩
-      · have := hp.intPending k (by rw [← hk, h1]; simp [oids]); omega
-      · rw [h1] at hk; injection hk with hk; omega
-    have hext : ∀ k, out.oid = Oid.ext k → k ∈ used := by
-      intro k hk
-      rcases hoid with h1 | ⟨k', h1, _, _⟩
-      · exact hp.extUsed k (Or.inl (by rw [← hk, h1]; simp [oids]))
-      · rw [h1] at hk; cases hk
-    have base : FreshInv' { s with nextOid := n } used :=
-      ⟨⟨hnd, fun o ho => hp.untagged o (hpend o ho),
-        fun k hk => Nat.lt_of_lt_of_le (hp.intPending k (hpend _ hk)) hmono,
-        fun k hk => Nat.lt_of_lt_of_le (hp.intEchoed k hk) hmono, hp.filters⟩,
-       fun k hk => hp.extUsed k (hk.imp (hpend _) id)⟩
+    have base : TagInv { s with nextOid := n } :=
+      ⟨fun o ho => hp.untagged o (hpend o ho),
+       fun k hk => Nat.lt_of_lt_of_le (hp.intPending k (hpend _ hk)) hmono,
+       fun k hk => Nat.lt_of_lt_of_le (hp.intEchoed k hk) hmono, hp.echoedInt, hp.filters⟩
     dsimp only at h
     split at h
     · injection h with h1 h2; subst h1 h2
-      refine ⟨(by intro o h; cases h), ⟨⟨hnd, ?_, base.intPending, ?_, hp.filters⟩, ?_⟩⟩
+      refine ⟨(by intro o h; cases h), ⟨?_, ?_, ?_, ?_, hp.filters⟩⟩
       · intro o ho hm
         rcases mem_cons.mp hm with hm | hm
-        · exact hother o ho hm
-        · exact hp.untagged o (hpend o ho) hm
+        · have := base.intPending n (by rw [← hm]; exact ho)
+          exact Nat.lt_irrefl _ this
+        · exact base.untagged o ho hm
+      · intro k hk; exact Nat.lt_succ_of_lt (base.intPending k hk)
       · intro k hk
         rcases mem_cons.mp hk with hk | hk
-        · exact hint k hk.symm
-        · exact base.intEchoed k hk
-      · intro k hk
-        rcases hk with hk | hk
-        · exact base.extUsed k (Or.inl hk)
-        · rcases mem_cons.mp hk with hk | hk
-          · exact hext k hk.symm
-          · exact base.extUsed k (Or.inr hk)
+        · injection hk with hk; subst hk; exact Nat.lt_succ_self _
+        · exact Nat.lt_succ_of_lt (base.intEchoed k hk)
+      · intro o ho
+        rcases mem_cons.mp ho with ho | ho
+        · exact ⟨n, ho⟩
+        · exact hp.echoedInt o ho
     · injection h with h1 h2; subst h1 h2
       exact ⟨(by intro o h; cases h), base⟩
 
@@ -144,113 +136,131 @@ theorem dequeue_rotated_perm {limit now : Nat} {q q' : Queue} {m : Msg}
   rw [perm_iff_count]; intro x
   exact dequeue_rotated_count h x
 
-theorem oids_perm {l1 l2 : List Msg} (h : l1.Perm l2) : (oids l1).Perm (oids l2) := h.map _
-
-theorem oids_cons (m : Msg) (l : List Msg) : oids (m :: l) = m.oid :: oids l := rfl
-
-theorem FreshInv'.of_perm {s s' : Irc} {used : List Nat} (h : FreshInv' s used)
-    (hp : s'.pending.Perm s.pending) (he : s'.echoed = s.echoed) (hn : s.nextOid ≤ s'.nextOid)
-    (hf : s'.cfg = s.cfg) : FreshInv' s' used := by
-  have hm : ∀ o, o ∈ oids s'.pending ↔ o ∈ oids s.pending := fun o => (oids_perm hp).mem_iff
-  refine ⟨⟨((oids_perm hp).nodup_iff).mpr h.nodup, ?_, ?_, ?_, by rw [hf]; exact h.filters⟩, ?_⟩
-  · intro o ho; rw [he]; exact h.untagged o ((hm o).mp ho)
-  · intro k hk; exact Nat.lt_of_lt_of_le (h.intPending k ((hm _).mp hk)) hn
-  · intro k hk; rw [he] at hk; exact Nat.lt_of_lt_of_le (h.intEchoed k hk) hn
-  · intro k hk; rw [he, hm] at hk; exact h.extUsed k hk
-
-theorem PreInv.of_perm {s s0 : Irc} {m : Msg} {used : List Nat} (h : FreshInv' s0 used)
-    (hp : (m :: s.pending).Perm s0.pending) (he : s.echoed = s0.echoed) (hn : s.nextOid = s0.nextOid)
-    (hf : s.cfg = s0.cfg) : PreInv s m used := by
-  have hm : ∀ o, o ∈ oids (m :: s.pending) ↔ o ∈ oids s0.pending := fun o => (oids_perm hp).mem_iff
-  refine ⟨((oids_perm hp).nodup_iff).mpr h.nodup, ?_, ?_, ?_, by rw [hf]; exact h.filters, ?_⟩
-  · intro o ho; rw [he]; exact h.untagged o ((hm o).mp ho)
-  · intro k hk; rw [hn]; exact h.intPending k ((hm _).mp hk)
-  · intro k hk; rw [he] at hk; rw [hn]; exact h.intEchoed k hk
-  · intro k hk; rw [he, hm] at hk; exact h.extUsed k hk
-
-/-- no `lost` event -/
-def Ev.notLost : Ev → Bool
-  | .lost _ _ _ _ => false
-  | _ => true
-
-/-- adding an object made inside the bot (identity `nextOid`) -/
-theorem FreshInv'.add_int {s : Irc} {used : List Nat} (h : FreshInv' s used) (c : Content) (s' : Irc)
-    (hp : s'.pending.Perm (⟨.int s.nextOid, c⟩ :: s.pending)) (he : s'.echoed = s.echoed)
-    (hn : s'.nextOid = s.nextOid + 1) (hf : s'.cfg = s.cfg) : FreshInv' s' used := by
-  have hm : ∀ o, o ∈ oids s'.pending ↔ (o = .int s.nextOid ∨ o ∈ oids s.pending) := by
-    intro o
-    rw [(oids_perm hp).mem_iff, oids_cons]
-    simp
-  have hnew : Oid.int s.nextOid ∉ oids s.pending := fun hk => Nat.lt_irrefl _ (h.intPending _ hk)
-  refine ⟨⟨?_, ?_, ?_, ?_, by rw [hf]; exact h.filters⟩, ?_⟩
-  · rw [(oids_perm hp).nodup_iff, oids_cons]
-    exact nodup_cons.mpr ⟨hnew, h.nodup⟩
-  · intro o ho; rw [he]
-    rcases (hm o).mp ho with ho | ho
-    · subst ho; intro hk; exact Nat.lt_irrefl _ (h.intEchoed _ hk)
-    · exact h.untagged o ho
-  · intro k hk; rw [hn]
-    rcases (hm _).mp hk with hk | hk
-    · injection hk with hk; omega
-    · have := h.intPending k hk; omega
-  · intro k hk; rw [he] at hk; rw [hn]; have := h.intEchoed k hk; omega
-  · intro k hk
-    rw [he] at hk
-    rcases hk with hk | hk
-    · rcases (hm _).mp hk with hk | hk
-      · cases hk
-      · exact h.extUsed k (Or.inl hk)
-    · exact h.extUsed k (Or.inr hk)
-
-/-! ### every step keeps the invariant and loses nothing -/
-
-def FreshStep (s : Irc) (r : Irc × List Ev) (used : List Nat) : Prop :=
-  FreshInv' s used → FreshInv' r.1 used ∧ ∀ e ∈ r.2, e.notLost = true
-
 theorem enqueue_true_perm {dup : Bool} {q q' : Queue} {m : Msg} (h : q.enqueue dup m = (q', true)) :
     q'.all.Perm (m :: q.all) := by
   rw [perm_iff_count]; intro x
   have := enqueue_true_count h x
   simp only [count_cons_one]; omega
 
-theorem queueMsg_int_fresh (s : Irc) (c : Content) (used : List Nat) (s0 : Irc)
-    (h0 : s0.pending = s.pending) (he : s0.echoed = s.echoed) (hn : s0.nextOid = s.nextOid + 1)
-    (hf : s0.cfg = s.cfg) (hi : FreshInv' s used) :
-    FreshInv' (queueMsg s0 ⟨.int s.nextOid, c⟩).1 used ∧
-    ∀ e ∈ (queueMsg s0 ⟨.int s.nextOid, c⟩).2, e.notLost = true := by
+theorem oids_perm {l1 l2 : List Msg} (h : l1.Perm l2) : (oids l1).Perm (oids l2) := h.map _
+
+/-- no `lost` event -/
+def Ev.notLost : Ev → Bool
+  | .lost _ _ _ _ => false
+  | _ => true
+
+/-- adding a waiting object that does not carry the tag -/
+theorem TagInv.add {s : Irc} (h : TagInv s) (m : Msg) (s' : Irc)
+    (hp : ∀ o ∈ oids s'.pending, o = m.oid ∨ o ∈ oids s.pending) (he : s'.echoed = s.echoed)
+    (hn : s.nextOid ≤ s'.nextOid) (hf : s'.cfg = s.cfg)
+    (hm : (∃ k, m.oid = .ext k) ∨ (∃ k, m.oid = .int k ∧ s.nextOid ≤ k ∧ k < s'.nextOid)) : TagInv s' := by
+  have hmne : m.oid ∉ s.echoed := by
+    rcases hm with ⟨k, hk⟩ | ⟨k, hk, h1, _⟩
+    · rw [hk]; intro hin; obtain ⟨j, hj⟩ := h.echoedInt _ hin; cases hj
+    · rw [hk]; intro hin; have := h.intEchoed k hin; omega
+  refine ⟨?_, ?_, ?_, by rw [he]; exact h.echoedInt, by rw [hf]; exact h.filters⟩
+  · intro o ho; rw [he]
+    rcases hp o ho with ho | ho
+    · rw [ho]; exact hmne
+    · exact h.untagged o ho
+  · intro k hk
+    rcases hp _ hk with hk | hk
+    · rcases hm with ⟨j, hj⟩ | ⟨j, hj, _, h2⟩
+      · rw [hj] at hk; cases hk
+      · rw [hj] at hk; injection hk with hk; omega
+    · exact Nat.lt_of_lt_of_le (h.intPending k hk) hn
+  · intro k hk; rw [he] at hk; exact Nat.lt_of_lt_of_le (h.intEchoed k hk) hn
+
+/-! ### every step keeps the invariant and loses nothing -/
+
+def TagStep (s : Irc) (r : Irc × List Ev) : Prop :=
+  TagInv s → TagInv r.1 ∧ ∀ e ∈ r.2, e.notLost = true
+
+theorem mem_oids_perm {l1 l2 : List Msg} (h : l1.Perm l2) {o : Oid} : o ∈ oids l1 ↔ o ∈ oids l2 :=
+  (oids_perm h).mem_iff
+
+theorem queueMsg_tag (s : Irc) (m : Msg)
+    (hm : (∃ k, m.oid = .ext k) ∨ (∃ k, m.oid = .int k ∧ k < s.nextOid ∧ Oid.int k ∉ s.echoed)) :
+    TagStep s (queueMsg s m) := by
+  intro hi
+  have hok : TagInv s → ∀ s' : Irc, (∀ o ∈ oids s'.pending, o = m.oid ∨ o ∈ oids s.pending) →
+      s'.echoed = s.echoed → s'.nextOid = s.nextOid → s'.cfg = s.cfg → TagInv s' := by
+    intro hi s' hp he hn hf
+    refine ⟨?_, ?_, ?_, by rw [he]; exact hi.echoedInt, by rw [hf]; exact hi.filters⟩
+    · intro o ho; rw [he]
+      rcases hp o ho with ho | ho
+      · rw [ho]
+        rcases hm with ⟨k, hk⟩ | ⟨k, hk, _, h3⟩
+        · rw [hk]; intro hin; obtain ⟨j, hj⟩ := hi.echoedInt _ hin; cases hj
+        · rw [hk]; exact h3
+      · exact hi.untagged o ho
+    · intro k hk; rw [hn]
+      rcases hp _ hk with hk | hk
+      · rcases hm with ⟨j, hj⟩ | ⟨j, hj, h2, _⟩
+        · rw [hj] at hk; cases hk
+        · rw [hj] at hk; injection hk with hk; omega
+      · exact hi.intPending k hk
+    · intro k hk; rw [he] at hk; rw [hn]; exact hi.intEchoed k hk
   unfold queueMsg
   split
   · split
     · rename_i q' hq
-      refine ⟨hi.add_int c _ ?_ he hn hf, by intro e h; simp at h; subst h; rfl⟩
-      have := enqueue_true_perm hq
-      show (s0.fast ++ q'.all).Perm (_ :: s.pending)
-      rw [← h0]
-      refine (Perm.append_left _ this).trans ?_
-      exact perm_middle
-    · exact ⟨hi.of_perm (by rw [h0]) he (by show s.nextOid ≤ s0.nextOid; omega) hf,
-        by intro e h; simp at h; subst h; rfl⟩
-  · exact ⟨hi.of_perm (by rw [h0]) he (by show s.nextOid ≤ s0.nextOid; omega) hf,
-      by intro e h; simp at h; subst h; rfl⟩
+      refine ⟨hok hi _ ?_ rfl rfl rfl, by intro e h; simp at h; subst h; rfl⟩
+      intro o ho
+      have hperm : (s.fast ++ q'.all).Perm (m :: (s.fast ++ s.queue.all)) :=
+        (Perm.append_left _ (enqueue_true_perm hq)).trans perm_middle
+      have := (mem_oids_perm hperm).mp ho
+      rw [oids_cons] at this
+      exact (mem_cons.mp this)
+    · exact ⟨hi, by intro e h; simp at h; subst h; rfl⟩
+  · exact ⟨hi, by intro e h; simp at h; subst h; rfl⟩
 
-theorem sendConnect_fresh (cs : List Content) : ∀ (s : Irc) (used : List Nat),
-    FreshStep s (sendConnect s cs) used := by
+theorem sendMsg_tag (s : Irc) (m : Msg)
+    (hm : (∃ k, m.oid = .ext k) ∨ (∃ k, m.oid = .int k ∧ k < s.nextOid ∧ Oid.int k ∉ s.echoed)) :
+    TagStep s (sendMsg s m) := by
+  intro hi
+  unfold sendMsg
+  split
+  · refine ⟨?_, by intro e h; simp at h; subst h; rfl⟩
+    refine ⟨?_, ?_, hi.intEchoed, hi.echoedInt, hi.filters⟩
+    · intro o ho
+      have hperm : ((s.fast ++ [m]) ++ s.queue.all).Perm (m :: (s.fast ++ s.queue.all)) := by
+        simp only [append_assoc, singleton_append]; exact perm_middle
+      have := (mem_oids_perm hperm).mp ho
+      rw [oids_cons] at this
+      rcases mem_cons.mp this with h | h
+      · rw [h]
+        rcases hm with ⟨k, hk⟩ | ⟨k, hk, _, h3⟩
+        · rw [hk]; intro hin; obtain ⟨j, hj⟩ := hi.echoedInt _ hin; cases hj
+        · rw [hk]; exact h3
+      · exact hi.untagged o h
+    · intro k hk
+      have hperm : ((s.fast ++ [m]) ++ s.queue.all).Perm (m :: (s.fast ++ s.queue.all)) := by
+        simp only [append_assoc, singleton_append]; exact perm_middle
+      have := (mem_oids_perm hperm).mp hk
+      rw [oids_cons] at this
+      rcases mem_cons.mp this with h | h
+      · rcases hm with ⟨j, hj⟩ | ⟨j, hj, h2, _⟩
+        · rw [hj] at h; cases h
+        · rw [hj] at h; injection h with h; subst h; exact h2
+      · exact hi.intPending k h
+  · exact ⟨hi, by intro e h; simp at h; subst h; rfl⟩
+
+/-- bumping the identity supply -/
+theorem TagInv.bump {s : Irc} (h : TagInv s) : TagInv { s with nextOid := s.nextOid + 1 } :=
+  h.of_sub (fun _ ho => ho) rfl (Nat.le_succ _) rfl
+
+theorem sendConnect_tag (cs : List Content) : ∀ (s : Irc), TagStep s (sendConnect s cs) := by
   induction cs with
-  | nil => intro s used hi; exact ⟨hi, by intro e h; cases h⟩
+  | nil => intro s hi; exact ⟨hi, by intro e h; cases h⟩
   | cons c cs ih =>
-    intro s used hi
+    intro s hi
     unfold sendConnect
     dsimp only
-    have h1 : FreshInv' (sendMsg { s with nextOid := s.nextOid + 1 } ⟨.int s.nextOid, c⟩).1 used ∧
-        ∀ e ∈ (sendMsg { s with nextOid := s.nextOid + 1 } ⟨.int s.nextOid, c⟩).2, e.notLost = true := by
-      unfold sendMsg
-      split
-      · refine ⟨hi.add_int c _ ?_ rfl rfl rfl, by intro e h; simp at h; subst h; rfl⟩
-        show ((s.fast ++ [_]) ++ s.queue.all).Perm (_ :: (s.fast ++ s.queue.all))
-        simp only [append_assoc, singleton_append]
-        exact perm_middle
-      · exact ⟨hi.of_perm (Perm.refl _) rfl (Nat.le_succ _) rfl, by intro e h; simp at h; subst h; rfl⟩
-    obtain ⟨h2, h3⟩ := ih _ used h1.1
+    have hfresh : Oid.int s.nextOid ∉ s.echoed := fun hin => Nat.lt_irrefl _ (hi.intEchoed _ hin)
+    have h1 := sendMsg_tag { s with nextOid := s.nextOid + 1 } ⟨.int s.nextOid, c⟩
+      (Or.inr ⟨s.nextOid, rfl, Nat.lt_succ_self _, hfresh⟩) hi.bump
+    obtain ⟨h2, h3⟩ := ih _ h1.1
     refine ⟨h2, ?_⟩
     intro e he
     rcases mem_append.mp he with he | he
@@ -262,34 +272,27 @@ def cleared (s : Irc) : Irc :=
   { s with lastTake := 0, afterConnect := false, lastPing := s.now, outstandingPing := false,
            echoAcked := false, queue := Queue.empty, fast := [] }
 
-theorem reset_fresh (s : Irc) (used : List Nat) : FreshStep s (reset s) used := by
+theorem reset_tag (s : Irc) : TagStep s (reset s) := by
   intro hi
-  unfold reset queueConnectMessages
-  dsimp only
   have hp0 : (cleared s).pending = [] := rfl
-  have hclear : FreshInv' (cleared s) used := by
-    refine ⟨⟨?_, ?_, ?_, hi.intEchoed, hi.filters⟩, ?_⟩
-    · rw [hp0]; exact nodup_nil
+  have hclear : TagInv (cleared s) := by
+    refine ⟨?_, ?_, hi.intEchoed, hi.echoedInt, hi.filters⟩
     · intro o ho; rw [hp0] at ho; cases ho
     · intro k hk; rw [hp0] at hk; cases hk
-    · intro k hk
-      rcases hk with hk | hk
-      · rw [hp0] at hk; cases hk
-      · exact hi.extUsed k (Or.inr hk)
-  show FreshInv' (if (cleared s).zombie = true then (cleared s, killEvents)
-      else sendConnect (cleared s) (cleared s).cfg.connectMsgs).1 used ∧
+  show TagInv (if (cleared s).zombie = true then (cleared s, killEvents)
+      else sendConnect (cleared s) (cleared s).cfg.connectMsgs).1 ∧
     ∀ e ∈ Ev.discarded s.pending :: (if (cleared s).zombie = true then (cleared s, killEvents)
       else sendConnect (cleared s) (cleared s).cfg.connectMsgs).2, e.notLost = true
   split
   · exact ⟨hclear, by intro e h; simp [killEvents] at h; rcases h with h | h <;> (subst h; rfl)⟩
-  · obtain ⟨h1, h2⟩ := sendConnect_fresh (cleared s).cfg.connectMsgs _ used hclear
+  · obtain ⟨h1, h2⟩ := sendConnect_tag (cleared s).cfg.connectMsgs _ hclear
     refine ⟨h1, ?_⟩
     intro e he
     rcases mem_cons.mp he with he | he
     · subst he; rfl
     · exact h2 e he
 
-theorem noMsg_fresh (s : Irc) (used : List Nat) : FreshStep s (noMsg s) used := by
+theorem noMsg_tag (s : Irc) : TagStep s (noMsg s) := by
   intro hi
   rw [noMsg_state]
   refine ⟨hi, ?_⟩
@@ -298,13 +301,13 @@ theorem noMsg_fresh (s : Irc) (used : List Nat) : FreshStep s (noMsg s) used := 
   · cases he
   · simp [killEvents] at he; subst he; rfl
 
-theorem pingBranch_fresh (s : Irc) (used : List Nat) : FreshStep s (pingBranch s) used := by
+theorem pingBranch_tag (s : Irc) : TagStep s (pingBranch s) := by
   intro hi
   unfold pingBranch
   split
   · split
     · dsimp only
-      obtain ⟨h1, h2⟩ := reset_fresh s used hi
+      obtain ⟨h1, h2⟩ := reset_tag s hi
       refine ⟨h1, ?_⟩
       intro e he
       rcases mem_cons.mp he with he | he
@@ -312,28 +315,29 @@ theorem pingBranch_fresh (s : Irc) (used : List Nat) : FreshStep s (pingBranch s
       · exact h2 e he
     · split
       · dsimp only
-        exact queueMsg_int_fresh s _ used _ rfl rfl rfl rfl hi
+        have hfresh : Oid.int s.nextOid ∉ s.echoed := fun hin => Nat.lt_irrefl _ (hi.intEchoed _ hin)
+        have hb : TagInv { s with lastPing := s.now, outstandingPing := true, nextOid := s.nextOid + 1 } :=
+          hi.of_sub (fun _ ho => ho) rfl (Nat.le_succ _) rfl
+        exact queueMsg_tag _ _ (Or.inr ⟨s.nextOid, rfl, Nat.lt_succ_self _, hfresh⟩) hb
       · exact ⟨hi, by intro e h; cases h⟩
   · exact ⟨hi, by intro e h; cases h⟩
 
-theorem takeAux_fresh : ∀ (fuel : Nat) (s : Irc) (used : List Nat), FreshStep s (takeAux fuel s) used
-  | 0, s, used => fun hi => ⟨hi, by intro e h; cases h⟩
-  | fuel + 1, s, used => by
+theorem takeAux_tag : ∀ (fuel : Nat) (s : Irc), TagStep s (takeAux fuel s)
+  | 0, s => fun hi => ⟨hi, by intro e h; cases h⟩
+  | fuel + 1, s => by
     intro hi
     unfold takeAux takeBody
     split
     · rename_i m rest hf
-      have hpre : PreInv { s with fast := rest } m used :=
-        PreInv.of_perm hi (by simp [Irc.pending, hf]) rfl rfl rfl
+      have hpre : PreInv { s with fast := rest } m :=
+        PreInv.of_sub hi (by intro o ho; simpa [oids, Irc.pending, hf] using ho) rfl rfl rfl
       split
       · rename_i s1 o hd
-        obtain ⟨_, h2⟩ := deliver_fresh hpre hd
-        exact ⟨h2, by intro e h; simp at h; subst h; rfl⟩
+        exact ⟨(deliver_tag hpre hd).2, by intro e h; simp at h; subst h; rfl⟩
       · rename_i s1 o hd
-        exact absurd rfl ((deliver_fresh hpre hd).1 o)
+        exact absurd rfl ((deliver_tag hpre hd).1 o)
       · rename_i s1 hd
-        obtain ⟨_, h2⟩ := deliver_fresh hpre hd
-        obtain ⟨h3, h4⟩ := takeAux_fresh fuel s1 used h2
+        obtain ⟨h3, h4⟩ := takeAux_tag fuel s1 (deliver_tag hpre hd).2
         refine ⟨h3, ?_⟩
         intro e he
         rcases mem_cons.mp he with he | he
@@ -343,7 +347,7 @@ theorem takeAux_fresh : ∀ (fuel : Nat) (s : Irc) (used : List Nat), FreshStep 
       split
       · split
         · dsimp only
-          obtain ⟨h1, h2⟩ := noMsg_fresh s used hi
+          obtain ⟨h1, h2⟩ := noMsg_tag s hi
           refine ⟨h1, ?_⟩
           intro e he
           rcases mem_cons.mp he with he | he
@@ -351,20 +355,19 @@ theorem takeAux_fresh : ∀ (fuel : Nat) (s : Irc) (used : List Nat), FreshStep 
           · exact h2 e he
         · split
           · rename_i q' m hq
-            have hpre : PreInv { s with lastTake := s.now, queue := q' } m used := by
-              refine PreInv.of_perm hi ?_ rfl rfl rfl
-              show (m :: (s.fast ++ q'.all)).Perm (s.fast ++ s.queue.all)
-              rw [hf]
-              simpa using (dequeue_msg_perm hq).symm
+            have hpre : PreInv { s with lastTake := s.now, queue := q' } m := by
+              refine PreInv.of_sub hi ?_ rfl rfl rfl
+              intro o ho
+              have hperm : (m :: (s.fast ++ q'.all)).Perm (s.fast ++ s.queue.all) := by
+                rw [hf]; simpa using (dequeue_msg_perm hq).symm
+              exact (mem_oids_perm hperm).mp ho
             split
             · rename_i s1 o hd
-              obtain ⟨_, h2⟩ := deliver_fresh hpre hd
-              exact ⟨h2, by intro e h; simp at h; subst h; rfl⟩
+              exact ⟨(deliver_tag hpre hd).2, by intro e h; simp at h; subst h; rfl⟩
             · rename_i s1 o hd
-              exact absurd rfl ((deliver_fresh hpre hd).1 o)
+              exact absurd rfl ((deliver_tag hpre hd).1 o)
             · rename_i s1 hd
-              obtain ⟨_, h2⟩ := deliver_fresh hpre hd
-              obtain ⟨h3, h4⟩ := takeAux_fresh fuel s1 used h2
+              obtain ⟨h3, h4⟩ := takeAux_tag fuel s1 (deliver_tag hpre hd).2
               refine ⟨h3, ?_⟩
               intro e he
               rcases mem_cons.mp he with he | he
@@ -372,11 +375,11 @@ theorem takeAux_fresh : ∀ (fuel : Nat) (s : Irc) (used : List Nat), FreshStep 
               · exact h4 e he
           · rename_i q' m hq
             dsimp only
-            have h0 : FreshInv' { s with lastTake := s.now, queue := q' } used := by
-              refine hi.of_perm ?_ rfl (Nat.le_refl _) rfl
-              show (s.fast ++ q'.all).Perm (s.fast ++ s.queue.all)
-              exact Perm.append_left _ (dequeue_rotated_perm hq)
-            obtain ⟨h1, h2⟩ := noMsg_fresh _ used h0
+            have h0 : TagInv { s with lastTake := s.now, queue := q' } := by
+              refine hi.of_sub ?_ rfl (Nat.le_refl _) rfl
+              intro o ho
+              exact (mem_oids_perm (Perm.append_left s.fast (dequeue_rotated_perm hq))).mp ho
+            obtain ⟨h1, h2⟩ := noMsg_tag _ h0
             refine ⟨h1, ?_⟩
             intro e he
             rcases mem_cons.mp he with he | he
@@ -384,142 +387,66 @@ theorem takeAux_fresh : ∀ (fuel : Nat) (s : Irc) (used : List Nat), FreshStep 
             · exact h2 e he
           · rename_i q' hq
             have hc := dequeue_nothing_eq hq
-            have h0 : FreshInv' { s with lastTake := s.now, queue := q' } used := by
-              refine hi.of_perm ?_ rfl (Nat.le_refl _) rfl
-              show (s.fast ++ q'.all).Perm (s.fast ++ s.queue.all)
-              rw [hc]
-            exact noMsg_fresh _ used h0
+            have h0 : TagInv { s with lastTake := s.now, queue := q' } := by
+              refine hi.of_sub ?_ rfl (Nat.le_refl _) rfl
+              intro o ho; rw [hc] at ho; exact ho
+            exact noMsg_tag _ h0
       · dsimp only
-        obtain ⟨h1, h2⟩ := pingBranch_fresh s used hi
-        obtain ⟨h3, h4⟩ := noMsg_fresh _ used h1
+        obtain ⟨h1, h2⟩ := pingBranch_tag s hi
+        obtain ⟨h3, h4⟩ := noMsg_tag _ h1
         refine ⟨h3, ?_⟩
         intro e he
         rcases mem_append.mp he with he | he
         · exact h2 e he
         · exact h4 e he
 
-/-! ### operation sequences that hand every object over once -/
+/-! ### operation sequences -/
 
-/-- every `queueMsg`/`sendMsg` gets an object not handed over before; every configuration change
-installs well-behaved filters -/
-def OpsFresh : List Nat → List Op → Prop
-  | _, [] => True
-  | used, .queue m :: ops => ∃ k, m.oid = .ext k ∧ k ∉ used ∧ OpsFresh (k :: used) ops
-  | used, .send m :: ops => ∃ k, m.oid = .ext k ∧ k ∉ used ∧ OpsFresh (k :: used) ops
-  | used, .config c :: ops => (∀ f ∈ c.filters, FilterOk f) ∧ OpsFresh used ops
-  | used, _ :: ops => OpsFresh used ops
+/-- every `queueMsg`/`sendMsg` is given a caller-made object (possibly one handed over before);
+every configuration change installs well-behaved filters -/
+def OpsExt : List Op → Prop
+  | [] => True
+  | .queue m :: ops => (∃ k, m.oid = .ext k) ∧ OpsExt ops
+  | .send m :: ops => (∃ k, m.oid = .ext k) ∧ OpsExt ops
+  | .config c :: ops => (∀ f ∈ c.filters, FilterOk f) ∧ OpsExt ops
+  | _ :: ops => OpsExt ops
 
-theorem FreshInv'.weaken {s : Irc} {used : List Nat} (h : FreshInv' s used) (k : Nat) :
-    FreshInv' s (k :: used) :=
-  ⟨h.toFreshInv, fun j hj => mem_cons_of_mem _ (h.extUsed j hj)⟩
-
-/-- accepting a new caller-made object -/
-theorem FreshInv'.add_ext {s : Irc} {used : List Nat} (h : FreshInv' s used) (m : Msg) (k : Nat)
-    (hm : m.oid = .ext k) (hk : k ∉ used) (s' : Irc) (hp : s'.pending.Perm (m :: s.pending))
-    (he : s'.echoed = s.echoed) (hn : s'.nextOid = s.nextOid) (hf : s'.cfg = s.cfg) :
-    FreshInv' s' (k :: used) := by
-  have hmem : ∀ o, o ∈ oids s'.pending ↔ (o = m.oid ∨ o ∈ oids s.pending) := by
-    intro o
-    rw [(oids_perm hp).mem_iff, oids_cons]
-    simp
-  have hnew : m.oid ∉ oids s.pending := by
-    rw [hm]; intro h'; exact hk (h.extUsed k (Or.inl h'))
-  refine ⟨⟨?_, ?_, ?_, ?_, by rw [hf]; exact h.filters⟩, ?_⟩
-  · rw [(oids_perm hp).nodup_iff, oids_cons]
-    exact nodup_cons.mpr ⟨hnew, h.nodup⟩
-  · intro o ho; rw [he]
-    rcases (hmem o).mp ho with ho | ho
-    · rw [ho, hm]; intro h'; exact hk (h.extUsed k (Or.inr h'))
-    · exact h.untagged o ho
-  · intro j hj; rw [hn]
-    rcases (hmem _).mp hj with hj | hj
-    · rw [hm] at hj; cases hj
-    · exact h.intPending j hj
-  · intro j hj; rw [he] at hj; rw [hn]; exact h.intEchoed j hj
-  · intro j hj
-    rw [he] at hj
-    rcases hj with hj | hj
-    · rcases (hmem _).mp hj with hj | hj
-      · rw [hm] at hj; injection hj with hj; subst hj; exact mem_cons_self
-      · exact mem_cons_of_mem _ (h.extUsed j (Or.inl hj))
-    · exact mem_cons_of_mem _ (h.extUsed j (Or.inr hj))
-
-theorem run_fresh : ∀ (ops : List Op) (s : Irc) (used : List Nat), FreshInv' s used → OpsFresh used ops →
-    ∀ e ∈ (run s ops).2, e.notLost = true
-  | [], _, _, _, _ => by intro e h; cases h
-  | op :: ops, s, used, hi, ho => by
+theorem run_tag : ∀ (ops : List Op) (s : Irc), TagInv s → OpsExt ops → ∀ e ∈ (run s ops).2, e.notLost = true
+  | [], _, _, _ => by intro e h; cases h
+  | op :: ops, s, hi, ho => by
     intro e he
     unfold run at he
     dsimp only at he
-    -- the step: new invariant (for the new `used`) and no loss
-    have key : ∃ used', FreshInv' (step s op).1 used' ∧ OpsFresh used' ops ∧
-        ∀ e ∈ (step s op).2, e.notLost = true := by
+    have key : TagInv (step s op).1 ∧ OpsExt ops ∧ ∀ e ∈ (step s op).2, e.notLost = true := by
       cases op with
-      | queue m =>
-        obtain ⟨k, hm, hk, ho'⟩ := ho
-        refine ⟨k :: used, ?_, ho', ?_⟩
-        · show FreshInv' (queueMsg s m).1 (k :: used)
-          unfold queueMsg
-          split
-          · split
-            · rename_i q' hq
-              refine hi.add_ext m k hm hk _ ?_ rfl rfl rfl
-              show (s.fast ++ q'.all).Perm (m :: (s.fast ++ s.queue.all))
-              exact (Perm.append_left _ (enqueue_true_perm hq)).trans perm_middle
-            · exact hi.weaken k
-          · exact hi.weaken k
-        · intro e he
-          have : e ∈ (queueMsg s m).2 := he
-          unfold queueMsg at this
-          split at this
-          · split at this <;> (simp at this; subst this; rfl)
-          · simp at this; subst this; rfl
-      | send m =>
-        obtain ⟨k, hm, hk, ho'⟩ := ho
-        refine ⟨k :: used, ?_, ho', ?_⟩
-        · show FreshInv' (sendMsg s m).1 (k :: used)
-          unfold sendMsg
-          split
-          · refine hi.add_ext m k hm hk _ ?_ rfl rfl rfl
-            show ((s.fast ++ [m]) ++ s.queue.all).Perm (m :: (s.fast ++ s.queue.all))
-            simp only [append_assoc, singleton_append]
-            exact perm_middle
-          · exact hi.weaken k
-        · intro e he
-          have : e ∈ (sendMsg s m).2 := he
-          unfold sendMsg at this
-          split at this <;> (simp at this; subst this; rfl)
-      | take => exact ⟨used, (takeAux_fresh _ s used hi).1, ho, (takeAux_fresh _ s used hi).2⟩
+      | queue m => exact ⟨(queueMsg_tag s m (Or.inl ho.1) hi).1, ho.2, (queueMsg_tag s m (Or.inl ho.1) hi).2⟩
+      | send m => exact ⟨(sendMsg_tag s m (Or.inl ho.1) hi).1, ho.2, (sendMsg_tag s m (Or.inl ho.1) hi).2⟩
+      | take => exact ⟨(takeAux_tag _ s hi).1, ho, (takeAux_tag _ s hi).2⟩
       | die =>
-        refine ⟨used, ?_, ho, ?_⟩
-        · show FreshInv' (die s).1 used
+        refine ⟨?_, ho, ?_⟩
+        · show TagInv (die s).1
           unfold die; dsimp only
-          split <;> exact hi.of_perm (Perm.refl _) rfl (Nat.le_refl _) rfl
+          split <;> exact hi.of_sub (fun _ h => h) rfl (Nat.le_refl _) rfl
         · intro e he
           have : e ∈ (die s).2 := he
           unfold die at this; dsimp only at this
           split at this
           · simp at this; subst this; rfl
           · cases this
-      | reset => exact ⟨used, (reset_fresh s used hi).1, ho, (reset_fresh s used hi).2⟩
-      | tick dt =>
-        exact ⟨used, hi.of_perm (Perm.refl _) rfl (Nat.le_refl _) rfl, ho, by intro e h; cases h⟩
-      | connected =>
-        exact ⟨used, hi.of_perm (Perm.refl _) rfl (Nat.le_refl _) rfl, ho, by intro e h; cases h⟩
-      | pong =>
-        exact ⟨used, hi.of_perm (Perm.refl _) rfl (Nat.le_refl _) rfl, ho, by intro e h; cases h⟩
-      | capEcho b =>
-        exact ⟨used, hi.of_perm (Perm.refl _) rfl (Nat.le_refl _) rfl, ho, by intro e h; cases h⟩
+      | reset => exact ⟨(reset_tag s hi).1, ho, (reset_tag s hi).2⟩
+      | tick dt => exact ⟨hi.of_sub (fun _ h => h) rfl (Nat.le_refl _) rfl, ho, by intro e h; cases h⟩
+      | connected => exact ⟨hi.of_sub (fun _ h => h) rfl (Nat.le_refl _) rfl, ho, by intro e h; cases h⟩
+      | pong => exact ⟨hi.of_sub (fun _ h => h) rfl (Nat.le_refl _) rfl, ho, by intro e h; cases h⟩
+      | capEcho b => exact ⟨hi.of_sub (fun _ h => h) rfl (Nat.le_refl _) rfl, ho, by intro e h; cases h⟩
       | config c =>
-        obtain ⟨hc, ho'⟩ := ho
-        refine ⟨used, ⟨⟨hi.nodup, hi.untagged, hi.intPending, hi.intEchoed, hc⟩, hi.extUsed⟩, ho', ?_⟩
+        refine ⟨⟨hi.untagged, hi.intPending, hi.intEchoed, hi.echoedInt, ho.1⟩, ho.2, ?_⟩
         intro e he
         have : e ∈ [Ev.config c.throttle c.joinLimit] := he
         simp at this; subst this; rfl
-    obtain ⟨used', h1, h2, h3⟩ := key
+    obtain ⟨h1, h2, h3⟩ := key
     rcases mem_append.mp he with he | he
     · exact h3 e he
-    · exact run_fresh ops _ used' h1 h2 e he
+    · exact run_tag ops _ h1 h2 e he
 
 theorem lostOf_nil_of_notLost : ∀ (evs : List Ev), (∀ e ∈ evs, e.notLost = true) → lostOf evs = []
   | [], _ => rfl
@@ -528,21 +455,17 @@ theorem lostOf_nil_of_notLost : ∀ (evs : List Ev), (∀ e ∈ evs, e.notLost =
     have ih := lostOf_nil_of_notLost r (fun x hx => h x (mem_cons_of_mem _ hx))
     cases e <;> first | (simpa [lostOf] using ih) | cases h1
 
-theorem life_fresh (c : Cfg) (hc : ∀ f ∈ c.filters, FilterOk f) (now : Nat) (ops : List Op)
-    (ho : OpsFresh [] ops) : lostOf (life c now ops).2 = [] := by
+theorem life_tag (c : Cfg) (hc : ∀ f ∈ c.filters, FilterOk f) (now : Nat) (ops : List Op)
+    (ho : OpsExt ops) : lostOf (life c now ops).2 = [] := by
   apply lostOf_nil_of_notLost
-  have hb : FreshInv' (blank c now) [] := by
+  have hb : TagInv (blank c now) := by
     have hp0 : (blank c now).pending = [] := rfl
-    refine ⟨⟨?_, ?_, ?_, ?_, hc⟩, ?_⟩
-    · rw [hp0]; exact nodup_nil
+    refine ⟨?_, ?_, ?_, ?_, hc⟩
     · intro o ho; rw [hp0] at ho; cases ho
     · intro k hk; rw [hp0] at hk; cases hk
     · intro k hk; cases hk
-    · intro k hk
-      rcases hk with hk | hk
-      · rw [hp0] at hk; cases hk
-      · cases hk
-  have h1 := sendConnect_fresh c.connectMsgs (blank c now) [] hb
+    · intro o ho; cases ho
+  have h1 := sendConnect_tag c.connectMsgs (blank c now) hb
   intro e he
   unfold life init queueConnectMessages at he
   dsimp only at he
@@ -552,9 +475,6 @@ theorem life_fresh (c : Cfg) (hc : ∀ f ∈ c.filters, FilterOk f) (now : Nat) 
   · rcases mem_cons.mp he with he | he
     · subst he; rfl
     · exact h1.2 e he
-  · have hz2 : (if (blank c now).zombie = true then (blank c now, killEvents)
-        else sendConnect (blank c now) (blank c now).cfg.connectMsgs) = sendConnect (blank c now) c.connectMsgs := by
-      simp only [hz, Bool.false_eq_true, if_false]; rfl
-    exact run_fresh ops _ [] h1.1 ho e he
+  · exact run_tag ops _ h1.1 ho e he
 
 end C19
